@@ -90,7 +90,7 @@ class ColangParser:
                         \1match FlowStarted(flow_instance_uid=$instance_uid)
                         \1match FlowFinished(flow_instance_uid=$instance_uid)
                         """
-                    ),
+                    ).rstrip("\n"),
                     line,
                 )
 
